@@ -335,6 +335,7 @@ func (enc *VP8Encoder) rerecordAllTokens() {
 			info := &enc.mbInfo[idx]
 
 			if info.Skip {
+				enc.tokens.MarkMBStart(idx) // empty token range (see encodeFrame)
 				enc.topNz[mbX] = 0
 				enc.leftNz = 0
 				if info.MBType == 0 {
